@@ -785,6 +785,12 @@ class revert_intro(Method):
 
         pt = state.get_proof_item(prevs[0])
         assert pt.rule == 'assume', "revert_intro: prev is not assume"
+        # Only the assumption introduced last can be moved back into the goal:
+        # the following intros step rebuilds the implications in order.
+        item = state.get_proof_item(id.incr_id(1))
+        assert item.rule == 'intros' and len(item.prevs) >= 2 and \
+            item.prevs[-1] == id and item.prevs[-2] == prevs[0], \
+            "revert_intro: can only revert the last assumption of the enclosing intros"
         state.set_line(id, 'sorry', th=Thm.implies_intr(pt.th.prop, cur_item.th))
         item = state.get_proof_item(id.incr_id(1))
         state.set_line(id.incr_id(1), item.rule, args=item.args,
